@@ -354,10 +354,12 @@ impl<'a> YamlEmitter<'a> {
         } else {
             self.level += 1;
             for (cnt, (k, v)) in h.iter().enumerate() {
-                // A block scalar cannot be an implicit key either.
+                // A block scalar or a long string cannot be an implicit key either.
                 let complex_key = match *k {
                     Yaml::Mapping(_) | Yaml::Sequence(_) => true,
-                    Yaml::Value(Scalar::String(ref s)) => self.is_literal_block(s),
+                    Yaml::Value(Scalar::String(ref s)) => {
+                        self.is_literal_block(s) || is_long_key(s)
+                    }
                     _ => false,
                 };
                 if cnt > 0 {
@@ -415,6 +417,24 @@ impl<'a> YamlEmitter<'a> {
                 self.emit_node(val)
             }
         }
+    }
+}
+
+/// The parser only finds the `:` of an implicit key within that many characters of its start.
+const MAX_IMPLICIT_KEY_LEN: usize = 1024;
+
+/// Check if the string, once emitted, is too long for an implicit key (`key: value`).
+fn is_long_key(string: &str) -> bool {
+    // Escaping makes at most 6 characters of a byte (`\u0000`) and adds the 2 quotes: a short
+    // string need not be rendered.
+    if string.len() <= (MAX_IMPLICIT_KEY_LEN - 2) / 6 {
+        return false;
+    }
+    if need_quotes(string) {
+        let mut escaped = String::new();
+        escape_str(&mut escaped, string).is_err() || escaped.chars().count() > MAX_IMPLICIT_KEY_LEN
+    } else {
+        string.chars().count() > MAX_IMPLICIT_KEY_LEN
     }
 }
 
